@@ -94,7 +94,9 @@ def report_problems(rec, c, ctx, flavor=None, suffix=""):
 def menu(flavor, nfree, tier):
     if tier == "quick":
         return L_FULL if nfree <= 2 else (0, 1, 4, 4097) if nfree == 3 else (3, 4096)
-    return L_FULL if nfree <= 3 else (0, 1, 4, 5, 4097)
+    if flavor == "woff2n":  # brotli makes every evaluation ~5x dearer
+        return L_FULL if nfree <= 2 else (0, 1, 4, 5, 4097)
+    return L_FULL if nfree <= 3 else (0, 1, 4, 4097)
 
 
 def make_flavor_data(flavor, kind):
@@ -119,7 +121,7 @@ FD_KINDS = ("meta", "priv1", "priv4", "meta+priv5", "meta3+priv3", "ver", "ver+m
 class WriterProtocol(Unit):
     name = "writer-protocol"
     rule = ("SFNTWriter as a protocol machine: state = (flavour, set of tags written, next data offset); ops writer[tag]=data, close. All tag sets of size <=4 over {head,glyf,loca,'a   ','zzzz',OS/2,DSIG}, every insertion order, "
-            "payload lengths from {0,1,2,3,4,5,4095,4096,4097} (full product for <=2 (quick) / <=3 (thorough) free tables, reduced menus beyond), flavour in {sfnt, woff, woff2 without transform (arbitrary payloads, real head), woff2 with glyf/loca(/hmtx) transform over real tables}, "
+            "payload lengths from {0,1,2,3,4,5,4095,4096,4097} (full product for <=2 (quick) / <=3 (thorough; woff2 <=2) free tables, reduced menus {0,1,4,4097}/{3,4096} beyond), flavour in {sfnt, woff, woff2 without transform (arbitrary payloads, real head), woff2 with glyf/loca(/hmtx) transform over real tables}, "
             "sfntVersion in {TrueType, OTTO}, WOFF metadata/private/version blocks; protocol errors (tag written twice, numTables +-1, woff2 without head) must raise TTLibError and leave the writer usable. "
             "Oracle: otspec reads the bytes without any problem (order, alignment, zero padding, no gaps/overlaps, checksums, whole-file checkSumAdjustment, search fields, WOFF/WOFF2 header arithmetic and block rules), tables read back equal what was written, data blocks are in insertion order (sorted for woff2), sfnt offsets equal the model's. distinct = (flavour, sequence, lengths)")
     chunk = 6
